@@ -106,6 +106,13 @@ def run(model, res, tier):
     H.safely(res, 'R3', 'r3', _r3, model, res, c, cbs['call_variable'])
     H.safely(res, 'R3', 'r3 listener hands None', _r3_none, model, res, c, cbs)
     H.safely(res, 'R4', 'r4', _r4, model, res, c)
+    res.rule('R11', 'a formula consisting of a variable name evaluates to exactly the value of the variable: the grammar hands the value the '
+             'variable callback answers on unchanged, for every kind of value (shared with C10.R12)')
+
+    def _ref_values(tmp):
+        from . import c10
+        c10.reference_value_rule(model, tmp, c, 'R11', ('call_variable',))
+    H.borrow(res, 'R11', 'variable values', _ref_values)
     H.safely(res, 'R5', 'r5', _r5, model, res, c)
     H.safely(res, 'R6', 'r6', _r6, model, res, c)
     name_tokens_verbatim(model, res, c, cbs, 'R8')
